@@ -837,6 +837,45 @@ func genIterBoundaries(g *Gen, tier string, w *bufio.Writer) {
 			}
 		}
 	}
+	// hand-written length nodes: beyond the limit every iterator (and every other read that
+	// starts from Length()) reports the error for ever; inside the limit CORR only
+	for _, lim := range []uint64{1, 4, 5, 32, 33, 256, 257, 1 << 20, 1 << 40} {
+		for _, e := range []*Ty{{Kind: KUint, N: 1}, {Kind: KUint, N: 8}, {Kind: KUint, N: 32}, {Kind: KBitlist, N: 5}, {Kind: KList, N: 4, Elem: &Ty{Kind: KUint, N: 2}}, nil} {
+			for _, n := range []uint64{0, 1, 3, 33} {
+				if n > lim {
+					continue
+				}
+				var t *Ty
+				var v *Val
+				if e == nil {
+					t = &Ty{Kind: KBitlist, N: lim}
+					v = &Val{Kind: VBits, Bits: g.randBits(int(n))}
+				} else {
+					t = &Ty{Kind: KList, N: lim, Elem: e}
+					v = &Val{Kind: VSeq, Seq: []*Val{}}
+					for k := uint64(0); k < n; k++ {
+						v.Seq = append(v.Seq, g.RandVal(e, 4))
+					}
+				}
+				ovs := []uint64{lim + 1, lim + 2, lim * 2, lim + uint64(g.Intn(1000)) + 1, 1 << 63, ^uint64(0), g.U64() | lim + 1}
+				if lim > 1 {
+					ovs = append(ovs, uint64(g.Intn(int(min64(lim, 40))+1)), lim)
+				}
+				for _, ov := range ovs {
+					fmt.Fprintln(w, "begin")
+					fmt.Fprintf(w, "mk r %s %s %s\n", []string{"new", "dec"}[g.Intn(2)], t, v)
+					fmt.Fprintf(w, "tamper r %d\n", ov)
+					fmt.Fprintln(w, "iter r ro")
+					fmt.Fprintln(w, "iter r idx")
+					fmt.Fprintln(w, "len r")
+					if ov > lim {
+						fmt.Fprintln(w, "pop r")
+						fmt.Fprintln(w, "iter r ro")
+					}
+				}
+			}
+		}
+	}
 	// more than three 256-bit chunks / 32-byte chunks: the iterators' backtracking over chunk
 	// indices that are not powers of two (3, 5, 6, 7, …)
 	for _, n := range []uint64{768, 769, 1023, 1024, 1025, 1279, 1281, 1792, 2047, 2048, 2049, 4097} {
@@ -1103,4 +1142,11 @@ func genC07Targeted(g *Gen, tier string, w *bufio.Writer, begin string) {
 		fmt.Fprintf(w, "setv r %d f\n", rep) // the neighbour's (shared default) node bound beside itself
 		fmt.Fprintln(w, "hcount r")
 	}
+}
+
+func min64(a, b uint64) uint64 {
+	if a < b {
+		return a
+	}
+	return b
 }
